@@ -357,4 +357,15 @@ func init() {
 		c.Liveness = false
 		c.Weights["mkpod"] = 10
 	}}
+
+	// statusfault: only status writes fail (often), little else disturbs the set afterwards
+	profiles["statusfault"] = &Profile{Name: "statusfault", Tweak: func(r *PRNG, c *Config) {
+		c.Dialect = "truthful"
+		c.FaultPct = 1
+		c.FaultOnlyStatus = true
+		c.Weights["crash"] = 0
+		c.Weights["template"] = 1
+		c.Weights["replicas"] = 1
+		c.Chaos = r.Range(20, 90)
+	}}
 }
